@@ -239,6 +239,64 @@ def exact_optimum(case):
     return None
 
 
+def has_negative_scaler(case):
+    for c in case['cons']:
+        sc = c['scaling']
+        if sc['t'] == 'as' and sc['scaler'] is not None:
+            if any(v < 0 for v in bnd(sc['scaler'], con_size(c))):
+                return True
+    return False
+
+
+def pure_scipy_reaches(case, xstar, tol):
+    """the same QP given to scipy.optimize.minimize directly (model space, exact gradients)"""
+    from scipy.optimize import minimize, NonlinearConstraint, Bounds, BFGS
+    H = np.array(case['H'], dtype=float)
+    b = np.array(case['b'], dtype=float)
+    n = case['n']
+    opt = case['opt']
+    cons = []
+    for c in case['cons']:
+        R = np.array([[float(v) for v in row] for row in con_rows(c)])
+        m = con_size(c)
+        lo, hi, eq = bnd(c['lower'], m), bnd(c['upper'], m), bnd(c['equals'], m)
+        for j in range(m):
+            a = R[j]
+            if eq is not None:
+                l = h = float(eq[j])
+            else:
+                l = float(lo[j]) if lo is not None and lo[j] > -INF else -np.inf
+                h = float(hi[j]) if hi is not None and hi[j] < INF else np.inf
+            if opt == 'trust-constr':
+                cons.append(NonlinearConstraint(lambda x, a=a: a.dot(x), l, h, jac=lambda x, a=a: a.reshape(1, -1)))
+            else:
+                if np.isfinite(l):
+                    cons.append({'type': 'ineq', 'fun': lambda x, a=a, l=l: a.dot(x) - l})
+                if np.isfinite(h):
+                    cons.append({'type': 'ineq', 'fun': lambda x, a=a, h=h: h - a.dot(x)})
+    dv = case['dv']
+    dlo, dhi = bnd(dv['lower'], n), bnd(dv['upper'], n)
+    bounds = None
+    if dlo is not None or dhi is not None:
+        bounds = Bounds([float(v) if v > -INF else -np.inf for v in (dlo or [-INF] * n)],
+                        [float(v) if v < INF else np.inf for v in (dhi or [INF] * n)],
+                        keep_feasible=(opt == 'trust-constr'))   # as the driver does for new-style bounds
+    x0 = np.array([float(fr(e)) for e in case['x0']])
+    kw = {'jac': (lambda x: H.dot(x) - b)} if opt != 'COBYLA' else {}
+    options = {'maxiter': 1000}
+    if opt == 'COBYLA':
+        options.update(rhobeg=0.5, catol=1e-7)
+    if opt == 'trust-constr':
+        options.update(gtol=1e-9, xtol=1e-12)
+        kw['hess'] = BFGS()
+    try:
+        rr = minimize(lambda x: 0.5 * x.dot(H.dot(x)) - b.dot(x), x0, method=opt, bounds=bounds, constraints=cons,
+                      tol=case.get('tol', 1e-9), options=options, **kw)
+    except Exception:   # noqa
+        return False
+    return bool(rr.success) and float(np.max(np.abs(rr.x - xstar))) <= tol * max(1.0, float(np.max(np.abs(xstar))))
+
+
 # ----------------------------------------------------------------------------- capture / probes
 
 def qinf(v):
@@ -368,15 +426,26 @@ def handle(case):
     else:
         xs_ = np.array([float(v) for v in xstar])
         if np.max(np.abs(xs_ - xmod)) > tol_x * max(1.0, np.max(np.abs(xs_))):
-            problems.append(('C21:not-the-optimum',
-                             'success reported by %s at x=%s but the exact KKT optimum is %s' % (
-                                 case['opt'], xmod.tolist(), [str(v) for v in xstar])))
+            # SciPy's `success` is not always a claim of optimality (trust-constr: xtol termination;
+            # COBYLA: final trust-region radius, no optimality measure at all).  The miss is attributed
+            # to the driver when the optimizer carries its own optimality certificate (SLSQP;
+            # trust-constr status 1) or when plain SciPy trust-constr, given the same QP directly,
+            # does reach the optimum.  For COBYLA the optimum clause is only recorded.
+            certified = case['opt'] == 'SLSQP' or (case['opt'] == 'trust-constr' and getattr(r, 'status', 0) == 1)
+            if certified or (case['opt'] == 'trust-constr' and pure_scipy_reaches(case, xs_, tol_x)):
+                problems.append(('C21:not-the-optimum',
+                                 'success reported by %s at x=%s but the exact KKT optimum is %s' % (
+                                     case['opt'], xmod.tolist(), [str(v) for v in xstar])))
+            else:
+                kind += 'scipy-stops-early:'
     if problems:
         order = ['C21:success-infeasible', 'C21:success-on-infeasible-problem', 'C21:model-not-at-returned-design', 'C21:not-the-optimum']
         problems.sort(key=lambda t: order.index(t[0]))
         sig = problems[0][0]
         if sig == 'C21:success-infeasible':
             sig += ':' + ('new-style' if case['opt'] in NEW_STYLE else 'old-style')
+        if has_negative_scaler(case) and sig != 'C21:model-not-at-returned-design':
+            sig = 'C21:negative-constraint-scaler'
         return {'res': res, 'ok': False, 'msg': problems[0][1], 'sig': sig, 'kind': kind + 'success'}
     return {'res': res, 'ok': True, 'msg': '', 'sig': '', 'kind': kind + 'success'}
 
